@@ -24,12 +24,17 @@ import (
 const zzSrc, zzTgt = "/src", "/tgt"
 
 type zzWorld struct {
-	pool   []descriptor.Descriptor
-	bytes  map[digest.Digest][]byte
-	top    descriptor.Descriptor
-	all    []digest.Digest // closure of top (manifests and blobs)
-	mans   map[digest.Digest]bool
+	pool      []descriptor.Descriptor
+	bytes     map[digest.Digest][]byte
+	top       descriptor.Descriptor
+	all       []digest.Digest // closure of top (manifests and blobs)
+	mans      map[digest.Digest]bool
+	foreign   digest.Digest          // a layer referenced with external URLs ("" if none)
+	plain     map[digest.Digest]bool // blobs referenced without URLs somewhere
+	notHosted map[digest.Digest]bool // blobs the source does not hold
 }
+
+var zzWantForeign bool // registry harness: the first layer of the first image is a foreign layer
 
 func zzBlobFile(root string, d digest.Digest) string {
 	return path.Join(root, "blobs", d.Algorithm().String(), d.Encoded())
@@ -57,6 +62,13 @@ func (w *zzWorld) image(id int) descriptor.Descriptor {
 	layers := []descriptor.Descriptor{}
 	for i := 0; i < nl; i++ {
 		l := w.pool[zzInt("layer", 0, len(w.pool)-1)] // layers may be shared or repeated
+		if zzWantForeign && id == 0 && i == 0 {
+			l.MediaType = mediatype.OCI1ForeignLayerGzip
+			l.URLs = []string{"https://ext.example/x/" + l.Digest.Encoded()}
+			w.foreign = l.Digest
+		} else {
+			w.plain[l.Digest] = true
+		}
 		layers = append(layers, l)
 		w.all = append(w.all, l.Digest)
 	}
@@ -68,7 +80,7 @@ func (w *zzWorld) image(id int) descriptor.Descriptor {
 
 func zzBuildWorld() *zzWorld {
 	zzos.Reset()
-	w := &zzWorld{bytes: map[digest.Digest][]byte{}, mans: map[digest.Digest]bool{}}
+	w := &zzWorld{bytes: map[digest.Digest][]byte{}, mans: map[digest.Digest]bool{}, plain: map[digest.Digest]bool{}}
 	for i := 0; i < 2; i++ {
 		w.pool = append(w.pool, w.put([]byte{'l', byte('0' + i)}, mediatype.OCI1LayerGzip, false))
 	}
